@@ -151,6 +151,8 @@ class Tracer:
         elif k == 'const':
             if 'str' in o:
                 out.add('const:' + o['str'])
+            elif 'bytes' in o:
+                out.add('const:bytes')
             elif 'int' in o:
                 out.add('const:%s' % o['int'])
             elif 'bool' in o:
@@ -174,6 +176,30 @@ class Tracer:
             out.add('other')
 
     def _place(self, fn, pl, seen, out):
+        # field i of a local built by a single aggregate: follow only that component
+        proj = pl.get('p', [])
+        if proj and proj[0]['k'] == 'field':
+            df = du(fn).single_def(pl['l'])
+            if df is not None and df['kind'] == 'assign' and df['rv']['k'] == 'agg' \
+                    and df['rv'].get('ak') in ('tuple', 'adt', 'array', 'closure') \
+                    and not any(d['kind'] in ('partial', 'partial_call') for d in du(fn).defs.get(pl['l'], [])):
+                ops = df['rv']['ops']
+                i = proj[0]['i']
+                if i < len(ops) and (df['rv'].get('ak') != 'adt' or len(ops) > 0):
+                    pe = proj[0]
+                    if 'adt' in pe and 'n' in pe:
+                        nm = tyname(pe['adt'])
+                        out.add('field:%s::%s' % (nm, (pe['var'] + '.' + pe['n']) if 'var' in pe else pe['n']))
+                    o = ops[i]
+                    rest = proj[1:]
+                    if o['k'] in ('copy', 'move'):
+                        npl = {'l': o['pl']['l'], 'p': list(o['pl'].get('p', [])) + rest}
+                        if not npl['p']:
+                            del npl['p']
+                        self._place(fn, npl, seen, out)
+                    else:
+                        self._operand(fn, o, seen, out)
+                    return
         for pe in pl.get('p', []):
             if pe['k'] == 'field':
                 if 'adt' in pe and 'n' in pe:
